@@ -3,8 +3,8 @@
 Step part (real Network.perform_action, every action kind): compromised / reachable / discovered
 never drop, access never decreases, every configuration cell (address one-hots, OS, services,
 processes, value, discovery value) of the next state equals the state's.  Reset part (real
-NASimEnv.reset through the real __init__): from a tensor whose status cells are unconstrained (not
-even Inv) and an arbitrary step counter, reset() yields exactly the initial tensor -- no access,
+NASimEnv.reset through the real __init__): from any Inv-state (reset interleaved at an arbitrary point of any
+history) and an arbitrary step counter, reset() yields exactly the initial tensor -- no access,
 reachable = discovered = public -- unchanged configuration cells and steps == 0.
 """
 import z3
@@ -17,7 +17,7 @@ from . import common
 import nasim.envs.environment as m_env
 
 ID = "C04"
-TECHNIQUE = "symbolic execution of the real perform_action / NASimEnv.reset by z3 proxy values; per-cell equalities and monotonicity decided by the solver; reset from an unconstrained symbolic tensor"
+TECHNIQUE = "symbolic execution of the real perform_action / NASimEnv.reset by z3 proxy values; per-cell equalities and monotonicity decided by the solver; reset from an arbitrary invariant-satisfying state"
 needs_reach = True
 EXTRA_STUBS = dyn.EXTRA_STUBS
 REQUIRED_WITNESSES = ['success_exploit', 'success_privesc', 'success_subnet_scan', 'failure', 'reset']
@@ -45,10 +45,11 @@ def run(src, q):
     with stubs.sut():
         env = m_env.NASimEnv(w.scenario, fully_obs=q.get('fully_obs', False))
     r.init_rows = dyn.tensor_rows(env.current_state.tensor)
-    r.pre = scen.symbolic_state(w, env.current_state, constrain_domain=False)
+    r.pre = scen.symbolic_state(w, env.current_state)
+    r.st = scen.zstatus(r.pre)
     if src.symbolic:
-        for a in w.addrs:
-            sx.assume(z3.And(sx.znum(r.pre[a]['acc']) >= -3, sx.znum(r.pre[a]['acc']) <= 5))
+        sx.assume(scen.inv(w, r.st))      # reset is called from reachable states
+        sx.check_feasible()
     env.steps = src.int('steps', 0, None)
     r.pre_rows = dyn.tensor_rows(env.current_state.tensor)
     with stubs.sut():
